@@ -35,6 +35,18 @@ pub struct VerReq {
 #[derive(Debug, Clone, Serialize, Deserialize)]
 pub struct Chunk {
     pub reqs: Vec<VerReq>,
+    /// which server identity the chunk runs against: 0 = the fixed seed 0x42.., k = a seed derived from k
+    /// ("this server's" SRV must follow the server instance, also when several live in one process)
+    #[serde(default)]
+    pub seed_k: u8,
+}
+
+fn chunk_seed(k: u8) -> Vec<u8> {
+    if k == 0 {
+        vec![0x42; 32]
+    } else {
+        sha512(&[b"c12-seed", &[k]])[..32].to_vec()
+    }
 }
 
 fn build(v: &VerReq, k: usize, server_srv: &[u8]) -> Vec<u8> {
@@ -71,7 +83,7 @@ fn build(v: &VerReq, k: usize, server_srv: &[u8]) -> Vec<u8> {
 
 fn check_chunk(ctx: &mut Ctx, c: &Chunk) -> Res {
     let n = c.reqs.len();
-    let mut lab = match Lab::new(LabCfg { seed: vec![0x42; 32], batch_size: 64, ..Default::default() }, n.max(1)) {
+    let mut lab = match Lab::new(LabCfg { seed: chunk_seed(c.seed_k), batch_size: 64, ..Default::default() }, n.max(1)) {
         Ok(l) => l,
         Err(e) => return ctx.fail("server-new-failed", e),
     };
@@ -170,7 +182,7 @@ fn sequence() -> impl proptest::strategy::Strategy<Value = Chunk> {
     let srv = prop_oneof![4 => Just(Srv::Absent), 2 => Just(Srv::Correct), 1 => Just(Srv::Wrong), 1 => any::<u16>().prop_map(Srv::BitFlip), 1 => prop::sample::select(vec![0u8, 4, 28, 31, 33, 36, 64]).prop_map(Srv::Len)];
     // op: 0 fresh list, 1 previous + suffix, 2 prefix of previous, 3 previous repeated, 4 previous with draft-13 inserted
     let step = (0u8..5, list, proptest::collection::vec(val, 1..=3), any::<u8>(), srv);
-    proptest::collection::vec(step, 2..=24).prop_map(|steps| {
+    (proptest::collection::vec(step, 2..=24), prop_oneof![1 => Just(0u8), 2 => any::<u8>()]).prop_map(|(steps, seed_k)| {
         let mut reqs: Vec<VerReq> = vec![];
         let mut prev: Vec<u32> = vec![];
         for (op, fresh, suffix, cut, srv) in steps {
@@ -194,7 +206,7 @@ fn sequence() -> impl proptest::strategy::Strategy<Value = Chunk> {
             prev = l.clone();
             reqs.push(VerReq { vers: Some(l), srv });
         }
-        Chunk { reqs }
+        Chunk { reqs, seed_k }
     })
 }
 
@@ -202,7 +214,7 @@ pub fn run(ctx: &mut Ctx) -> Vec<Violation> {
     install_logger(log::LevelFilter::Off);
     let max_len = 6; // the full table is cheap enough for both tiers
     let tab = table(max_len);
-    let chunks: Vec<Chunk> = tab.chunks(48).map(|c| Chunk { reqs: c.to_vec() }).collect();
+    let chunks: Vec<Chunk> = tab.chunks(48).enumerate().map(|(i, c)| Chunk { reqs: c.to_vec(), seed_k: (i % 7) as u8 }).collect();
     let v = run_enum(ctx, "table", chunks.len() as u64, |i| chunks[i as usize].clone(), |ctx, c| check_chunk(ctx, c));
     if v.is_empty() && ctx.shard == 0 {
         ctx.stats.exhaustive_spaces.push(format!(
